@@ -1089,10 +1089,10 @@ class RxSO3_AdjTXa(torch.autograd.Function):
     @staticmethod
     def backward(ctx, grad_output):
         X, a = ctx.saved_tensors
-        a_grad = RxSO3_AdjXa.apply(X, grad_output)
-        X_grad = -a.unsqueeze(-2) @ rxso3_adj(a_grad)
+        a_grad = grad_output.unsqueeze(-2) @ RxSO3_Adj(RxSO3_Inv.apply(X))
+        X_grad = a_grad @ rxso3_adj(a)
         zero = torch.zeros(X.shape[:-1]+(1,), device=X.device, dtype=X.dtype)
-        return torch.cat((X_grad.squeeze(-2), zero), dim = -1), a_grad
+        return torch.cat((X_grad.squeeze(-2), zero), dim = -1), a_grad.squeeze(-2)
 
 
 class Sim3_AdjTXa(torch.autograd.Function):
